@@ -112,6 +112,9 @@ class BrokerPeer(object):
         b = self.cluster.brokers.get(self.node)
         return b is not None and b.up and (b.host, b.port) == (host, port) and not self.cluster.refusing.get(self.node)
 
+    def refuses_synchronously(self, host, port):
+        return self.cluster.refusing.get(self.node) == "sync"
+
     def on_connect(self, conn):
         conn.userdata["node"] = self.node
 
